@@ -12,6 +12,15 @@ import (
 )
 
 func main() {
+	for _, kv := range goEnv() {
+		if i := strings.Index(kv, "="); i > 0 {
+			k := kv[:i]
+			if k == "PATH" || k == "GOFLAGS" || k == "GOPROXY" || k == "GOTOOLCHAIN" {
+				os.Setenv(k, kv[i+1:])
+			}
+		}
+	}
+	os.Unsetenv("GOSUMDB")
 	if len(os.Args) < 2 {
 		fmt.Fprintln(os.Stderr, "usage: gocv <dump|verify|check|lemmas> ...")
 		os.Exit(2)
